@@ -8,3 +8,5 @@ for prop in "$@"; do
 done
 git -C /repo checkout -- .
 git -C /repo status --short | head -3
+# evidence files written while a seeded change was applied describe that tree, not the repository: restore the committed ones
+git -C /verif checkout -- evidence 2>/dev/null
